@@ -14,8 +14,8 @@
 (*                        tag = unique label of this reference             *)
 (*   obj                  id = object ID, tag = unique label (= the name   *)
 (*                        of its marker property where it has one),        *)
-(*                        props = <<[name, req, type, def]>>; ns = "" for  *)
-(*                        map-based objects, else the struct layout        *)
+(*                        props = <<[name, req, type, def, dis]>>; ns = "" *)
+(*                        for map-based objects, else the struct layout    *)
 (*   scope                id = root ID, tag = unique label, sub = objects  *)
 (*                                                                         *)
 (* The state machine: link[ref tag] \in {None} \cup object tags; actions   *)
@@ -42,8 +42,11 @@ Ref(tag, ns, id) == Mk("ref", id, ns, tag, <<>>, <<>>)
 Obj(id, tag, props) == Mk("obj", id, "", tag, <<>>, props)
 Scope(tag, root, objs) == Mk("scope", root, "", tag, objs, <<>>)
 \* def: the declared default of the property ("" = none; otherwise the text of a string default)
-Prop(name, req, type) == [name |-> name, req |-> req, type |-> type, def |-> ""]
-PropD(name, type, def) == [name |-> name, req |-> FALSE, type |-> type, def |-> def]
+\* dis: "" = in use, "plain" = disabled without a reason, "reason" = disabled with a reason.  A disabled
+\* property rejects every value on Unserialize; its type is linked and checked like any other.
+Prop(name, req, type) == [name |-> name, req |-> req, type |-> type, def |-> "", dis |-> ""]
+PropD(name, type, def) == [name |-> name, req |-> FALSE, type |-> type, def |-> def, dis |-> ""]
+Disabled(p, how) == [p EXCEPT !.dis = how]
 \* struct-mapped objects carry the name of their Go struct layout in the (otherwise unused) ns field
 SObj(id, tag, layout, props) == Mk("obj", id, layout, tag, <<>>, props)
 Marker(tag) == Prop(tag, FALSE, Leaf)
@@ -289,7 +292,7 @@ Unser(t, raw, env, R, seen) ==
                            IN IF r.ok THEN Out(TRUE, RMap(Append(r.v.items, Item(DiscField, d)))) ELSE Rej)
       [] t.kind = "obj" ->
            (IF raw.k # "map"
-            THEN IF Len(t.props) = 1 /\ t.tag \notin seen
+            THEN IF Len(t.props) = 1 /\ t.tag \notin seen /\ t.props[1].dis = ""
                  THEN LET r == Unser(t.props[1].type, raw, env, R, seen \cup {t.tag})
                       IN IF r.ok THEN Out(TRUE, RMap(<<Item(t.props[1].name, r.v)>>)) ELSE Rej
                  ELSE Rej
@@ -302,6 +305,7 @@ Unser(t, raw, env, R, seen) ==
                                          env, R, {})
                               ELSE Rej]
                  IN IF \E j \in DOMAIN raw.items : raw.items[j].key \notin names THEN Rej
+                    ELSE IF \E i \in DOMAIN t.props : has[i] /\ t.props[i].dis # "" THEN Rej
                     ELSE IF \E i \in DOMAIN t.props : (has[i] /\ ~rs[i].ok) \/ (~has[i] /\ t.props[i].req) THEN Rej
                     ELSE Out(TRUE, RMap(ItemsOf([i \in DOMAIN t.props |->
                                  [key |-> t.props[i].name, val |-> rs[i].v, here |-> has[i]]]))))
@@ -323,7 +327,8 @@ Good(t, d, env, R) ==
       [] t.kind = "obj"   ->
            (LET n == Len(t.props)
                 req == {i \in 1..n : t.props[i].req}
-                G == [i \in 1..n |-> IF d = 0 THEN {} ELSE Good(t.props[i].type, d - 1, env, R)]
+                G == [i \in 1..n |-> IF d = 0 \/ t.props[i].dis # "" THEN {}
+                                      ELSE Good(t.props[i].type, d - 1, env, R)]
             IN IF \E i \in req : G[i] = {} THEN {}
                ELSE LET base == [i \in 1..n |-> IF i \in req THEN CHOOSE g \in G[i] : TRUE ELSE Absent]
                     IN {ObjRaw(t, base)} \cup UNION {{ObjRaw(t, [base EXCEPT ![i] = g]) : g \in G[i]} : i \in 1..n})
@@ -348,7 +353,10 @@ Probe(t, d, env, R) ==
                 req == {i \in 1..n : t.props[i].req}
                 names == {t.props[i].name : i \in 1..n}
                 G == [i \in 1..n |-> IF d = 0 \/ i \notin req THEN {} ELSE Good(t.props[i].type, d - 1, env, R)]
-                P == [i \in 1..n |-> IF d = 0 THEN {} ELSE Probe(t.props[i].type, d - 1, env, R)]
+                P == [i \in 1..n |-> IF d = 0 THEN {}
+                                      ELSE Probe(t.props[i].type, d - 1, env, R)
+                                           \cup (IF t.props[i].dis # ""   \* a disabled property set to a fitting value
+                                                 THEN Good(t.props[i].type, d - 1, env, R) ELSE {})]
                 base == [i \in 1..n |-> IF i \in req /\ G[i] # {} THEN CHOOSE g \in G[i] : TRUE ELSE Absent]
                 twins == {o.tag : o \in {x \in AllObjs : x.id = t.id}}
             IN {RStr("x"), RBool, RList(<<>>)}
